@@ -8,6 +8,30 @@ COMMON_ASSUME = [
 ]
 
 PROPS = {
+    "C17": {
+        "claimed": True,
+        "title": "Wallet balance is truthful and no value is lost against an honest mint",
+        "lean": ["Gonuts.Props.C17", "Gonuts.Tie.WalletBooks"],
+        "streams": ["wallet-hist", "wallet-smoke"],
+        "thorough_shards": {"wallet-hist": 3, "wallet-smoke": 1},
+        "level": "proof",
+        "technique": "Lean 4 theorems over a small-step model of the wallet's bookkeeping (Model.WalletBooks: every wallet API call as a program with ONE effect per w.db.X / client.Y call in Go statement order, run against an abstract honest mint incl. its NUT-19 response cache; histories = induction over the op list; wallet crashes = Prog.runN); the model is tied to /repo statically (Tie.WalletBooks: the call skeleton of each of 19 programs, computed from the program itself, equals the skeleton the extractor reads off the Go function, by kernel evaluation) and differentially (stream wallet-hist: 2-3 REAL wallets on real bbolt against 1-2 REAL in-process mints with scripted Lightning; after every operation outcome, balances, amount multiset per keyset of both buckets, stored counters AND the exact sequence of storage/client calls are compared with the Lean driver) plus model-free monitors reading the mint's own tables",
+        "design_ref": "DESIGN.md §4.5, §5 C17, §6 F12",
+        "text": "see Gonuts/Props/C17.lean",
+        "assumptions": COMMON_ASSUME,
+    },
+    "C19": {
+        "claimed": True,
+        "title": "Seed backup is complete: no counter is reused and restore recovers all funds",
+        "lean": ["Gonuts.Props.C19", "Gonuts.Tie.WalletBooks"],
+        "streams": ["wallet-hist", "wallet-crash"],
+        "thorough_shards": {"wallet-hist": 3, "wallet-crash": 2},
+        "level": "proof",
+        "technique": "same model as C17; restore_counter / restore_complete as theorems about the pure control skeleton of Restore's batch loop (scan) with the program's batch proved equal to its specification by symbolic execution of its effects; stream wallet-crash kills the REAL wallet before every storage call (storage.WalletDB proxy via VerifWrapDB) and before/after every client call (in-process transport) of mint / send / receive / melt, reopens the directory, compares with the model's crash prefix (Prog.runN), restores the mnemonic into an empty directory and compares with the mint-side truth (NUT-13 outputs derived by the harness's own BIP32 code, states read from the mint's tables), continues and restores again; stream wallet-hist monitors every B_ submitted to /v1/mint, /v1/swap, /v1/melt at the transport",
+        "design_ref": "DESIGN.md §4.5, §5 C19, §6 F10, F13",
+        "text": "see Gonuts/Props/C19.lean",
+        "assumptions": COMMON_ASSUME,
+    },
     "C18": {
         "claimed": True,
         "title": "Send hands over exactly the requested amount, fees included when asked",
